@@ -178,6 +178,21 @@ class Gen:
             if k < 0.70:
                 l = self.line()
                 tail = r.choice(["", "", "\n", "\r\n", " "])
+                if r.random() < 0.08 and "\n" not in l and not self.cfg.get("mqtt"):
+                    # delivered as BYTES through the line reader, with bytes that are not valid UTF-8 in the payload
+                    try:
+                        b = list(l.encode("utf-8"))
+                    except UnicodeEncodeError:
+                        b = None
+                    if b is not None:
+                        for _ in range(r.choice([0, 1, 1, 2])):
+                            b.insert(r.randrange(l.rfind(";") + 1 if ";" in l else 0, len(b) + 1) if len(b) else 0,
+                                     r.choice([0xFF, 0xC3, 0xE2, 0x80, 0xFE, 0xC0]))
+                        b = [x for x in b if x != 10]
+                        ops.append(("recvb", b + ([13] if tail == "\r\n" else [])))
+                        if sync:
+                            ops.append(("pump",))
+                        continue
                 ops.append(("recv", l + tail))
             elif k < 0.92:
                 ops.append(self.call())
